@@ -56,7 +56,7 @@ func contains[T comparable](l []T, x T) bool {
 
 func TestC34(t *testing.T) {
 	run := evid.Start("C34", "exploration")
-	acc := enum.NewAcc(run, "per handler: every configuration over the protocol universe x peer universe (all subsets for list-valued fields) that the handler's own Validate and constructor accept, x every incoming (protocol, local peer, remote peer); a case is non-trivial if the stream is not one the configuration serves (the non-matching side of the filters); distinct by (handler, configuration, stream)")
+	acc := enum.NewAcc(run, "per handler: every configuration over the protocol universe x peer universe (all subsets for list-valued fields) that the handler's own Validate and constructor accept, x every incoming (protocol, local peer, remote peer); plus every ordered pair of stream lookups compared for equivalence (a fold confirmed on a real directive controller is judged against every configuration that takes the first and does not serve the second); a case is non-trivial if the stream is not one the configuration serves (the non-matching side of the filters); distinct by (handler, configuration, stream)")
 
 	log := logrus.New()
 	log.SetOutput(io.Discard)
